@@ -22,6 +22,8 @@ def run_check(pid, runs=None):
     extra = f" --runs {runs}" if runs else ""
     r = sh(f"cd {VERIF} && ./check {pid} --tier quick --no-evidence{extra}")
     sigs = [l.split("signature=")[1].strip() for l in r.stdout.splitlines() if l.startswith("violation:") and "signature=" in l]
+    idx = [int(l.split("run_index=")[1].split()[0]) for l in r.stdout.splitlines() if l.startswith("violation:") and "run_index=" in l]
+    run_check.first = min(idx) if idx else None
     return r.returncode, sigs
 
 
@@ -58,14 +60,16 @@ def main():
         try:
             todo = all_ids if all_checks else [e for e in expected if e in all_ids]
             caught = {}
+            first = {}
             t0 = time.time()
             for pid in todo:
                 code, sigs = run_check(pid)
                 if code == 1:
                     caught[pid] = sigs[:3]
+                    first[pid] = run_check.first
                 elif code == 2:
                     caught[pid] = ["HARNESS ERROR"]
-            results[mid] = {"description": desc, "expected": expected, "ran": todo, "caught": caught, "seconds": round(time.time() - t0, 1)}
+            results[mid] = {"description": desc, "expected": expected, "ran": todo, "caught": caught, "first_failing_run_index": first, "seconds": round(time.time() - t0, 1)}
             missed = [e for e in expected if e in todo and e not in caught]
             print(mid, "caught by", sorted(caught), "MISSED:" if missed else "", missed if missed else "", f"({results[mid]['seconds']}s)")
         finally:
@@ -79,7 +83,8 @@ def main():
             if "error" in r:
                 f.write(f"| {mid} | {r['description']} | {','.join(r['expected'])} | {r['error']} | |\n")
                 continue
-            c = "; ".join(f"{k}: `{(v or ['?'])[0]}`" for k, v in sorted(r["caught"].items()))
+            ff = r.get("first_failing_run_index", {})
+            c = "; ".join(f"{k}: `{(v or ['?'])[0]}`" + (f" (first failing run #{ff[k]})" if ff.get(k) is not None else "") for k, v in sorted(r["caught"].items()))
             missed = [e for e in r["expected"] if e in r["ran"] and e not in r["caught"]]
             f.write(f"| {mid} | {r['description']} | {','.join(r['expected'])} | {c} | {','.join(missed)} |\n")
     sh(f"find {VERIF}/replays -name '*.json' -delete")
